@@ -226,11 +226,11 @@ def tp_cases(draw, tier):
 
 
 def bit_tensor(counts, n):
-    arr = np.zeros((2,) * n or ())
+    arr = np.zeros((2,) * n or (), dtype=complex)
     for bits, value in counts.items():
         value = np.asarray(value)
         require(value.size == 1, "C12:count-not-a-number", repr(counts))
-        arr[tuple(bits)] = float(value.reshape(-1)[0])
+        arr[tuple(bits)] = complex(value.reshape(-1)[0])
     return arr
 
 
